@@ -407,7 +407,8 @@ impl<'a> Sc<'a> {
                     done!(-old - 1)
                 }
             }
-            Op::Fence { .. } | Op::Yield | Op::StopExploring | Op::Explore | Op::SkipBranch => done!(),
+            // (the guard's store goes to a location nothing reads: no effect on results)
+            Op::Fence { .. } | Op::Yield | Op::StopExploring | Op::Explore | Op::SkipBranch | Op::DropGuardStore { .. } => done!(),
             Op::Await { a, v, .. } => {
                 if s.atom[a as usize] == v as i64 {
                     done!()
